@@ -146,6 +146,78 @@ fn relink_hard_link_groups(
     failed
 }
 
+/// The other direction of `-H`: destination names that share an inode although their source files
+/// do not (any more). A name that left its group without a change of content or time stamp -- `cp -p
+/// c t; mv t c` in the source -- is up to date for the planner and is never transferred, so it stayed
+/// linked to its former group for good; a group that split in two stayed on one inode. Among the
+/// planned names found on one destination inode the first one keeps it, together with the names of
+/// its own source group; every other name gets a copy of its own (made under the working name, time
+/// stamp kept, renamed into place), the further names of its group are linked to that copy.
+#[cfg(unix)]
+fn separate_foreign_links(planned: &[(PathBuf, Option<u64>)]) -> Vec<(PathBuf, std::io::Error)> {
+    use std::os::unix::fs::MetadataExt;
+
+    let mut failed = Vec::new();
+    let mut order: Vec<(u64, u64)> = Vec::new();
+    let mut by_inode: std::collections::HashMap<(u64, u64), Vec<(&PathBuf, Option<u64>)>> =
+        std::collections::HashMap::new();
+    for (name, group) in planned {
+        let meta = match std::fs::symlink_metadata(name) {
+            Ok(m) if m.is_file() && m.nlink() > 1 => m,
+            _ => continue,
+        };
+        let key = (meta.dev(), meta.ino());
+        if !by_inode.contains_key(&key) {
+            order.push(key);
+        }
+        by_inode.entry(key).or_default().push((name, *group));
+    }
+    for key in order {
+        let names = &by_inode[&key];
+        let stay = names[0].1;
+        // source group -> the name of that group that already has its new inode
+        let mut moved: Vec<(u64, PathBuf)> = Vec::new();
+        for (name, group) in names.iter().skip(1) {
+            if group.is_some() && *group == stay {
+                continue;
+            }
+            let working = crate::temp_file::temp_path_for(name);
+            let _ = std::fs::remove_file(&working);
+            let first_of_group =
+                group.and_then(|g| moved.iter().find(|(mg, _)| *mg == g).map(|(_, p)| p.clone()));
+            let made = match &first_of_group {
+                Some(first) => std::fs::hard_link(first, &working),
+                None => std::fs::metadata(name).and_then(|meta| {
+                    std::fs::copy(name, &working)?;
+                    filetime::set_file_mtime(
+                        &working,
+                        filetime::FileTime::from_last_modification_time(&meta),
+                    )
+                }),
+            };
+            match made.and_then(|()| std::fs::rename(&working, name)) {
+                Ok(()) => {
+                    tracing::debug!("Hard link to another file's data removed: {}", name.display());
+                    if let (Some(g), None) = (group, &first_of_group) {
+                        moved.push((*g, (*name).clone()));
+                    }
+                }
+                Err(e) => {
+                    let _ = std::fs::remove_file(&working);
+                    tracing::warn!("Could not separate {}: {}", name.display(), e);
+                    failed.push(((*name).clone(), e));
+                }
+            }
+        }
+    }
+    failed
+}
+
+#[cfg(not(unix))]
+fn separate_foreign_links(_planned: &[(PathBuf, Option<u64>)]) -> Vec<(PathBuf, std::io::Error)> {
+    Vec::new()
+}
+
 #[cfg(not(unix))]
 fn relink_hard_link_groups(
     _groups: &std::collections::HashMap<u64, Vec<PathBuf>>,
@@ -857,6 +929,9 @@ impl<T: Transport + 'static> SyncEngine<T> {
         // `relink_hard_link_groups`)
         let mut link_groups: std::collections::HashMap<u64, Vec<PathBuf>> =
             std::collections::HashMap::new();
+        // ... and every planned regular file with the source group it belongs to (None: a file of
+        // its own), for `separate_foreign_links`
+        let mut planned_names: Vec<(PathBuf, Option<u64>)> = Vec::new();
         if self.preserve_hardlinks && !self.dry_run {
             for task in &tasks {
                 if let Some(file) = task.source.as_ref() {
@@ -867,6 +942,12 @@ impl<T: Transport + 'static> SyncEngine<T> {
                             .entry(inode)
                             .or_default()
                             .push(task.dest_path.clone());
+                    }
+                    if !file.is_dir && !file.is_symlink {
+                        planned_names.push((
+                            task.dest_path.clone(),
+                            file.inode.filter(|_| file.nlink > 1),
+                        ));
                     }
                 }
             }
@@ -1468,7 +1549,13 @@ impl<T: Transport + 'static> SyncEngine<T> {
         }
         // A hard link that could not be restored is a failure of the run like any other (it used to be
         // a warning: exit status 0 with the names on separate inodes)
-        for (path, e) in relink_hard_link_groups(&link_groups) {
+        {
+            let stats = stats.lock().unwrap();
+            planned_names.retain(|(name, _)| !stats.errors.iter().any(|e| &e.path == name));
+        }
+        let mut link_failures = relink_hard_link_groups(&link_groups);
+        link_failures.extend(separate_foreign_links(&planned_names));
+        for (path, e) in link_failures {
             if self.json {
                 SyncEvent::Error {
                     path: path.clone(),
